@@ -633,6 +633,90 @@ func main() {
 			t.Outcome("ok")
 		})
 
+		// Messages that enter the writer through ReadFrom, from sources that deliver some bytes and
+		// then stall (a hundred reads without bytes and without error), fail, or end; the
+		// application finishes the message with Flush and sends another one. RSV1 sits on the first
+		// frame of a compressed message and nowhere else, and a message that is open is continued
+		// by continuation frames only.
+		r.Part("E1e-ReadFrom-from-sources-that-stall-or-fail", func(t *explore.T) {
+			for _, client := range []bool{false, true} {
+				for _, bufN := range []int{4 + 6, 16 + 6} {
+					for _, first := range []bool{true, false} {
+						for _, k := range []int{0, 3, 16, 40, 100} {
+							for _, end := range []string{"EOF", "stall", "error", "EOF-with-the-last-bytes"} {
+								client, bufN, first, k, end := client, bufN, first, k, end
+								t.Do(func() string {
+									return fmt.Sprintf("client=%v buf=%d: message 1 (compressed=%v) by ReadFrom of a source giving %d bytes and then %s, Flush; message 2 (compressed=%v) by Write, Flush", client, bufN, first, k, end, !first)
+								}, func() *explore.Fail {
+									st := ws.StateServerSide | ws.StateExtended
+									if client {
+										st = ws.StateClientSide | ws.StateExtended
+									}
+									d := env.NewDst()
+									var ms wsflate.MessageState
+									w := wsutil.NewWriterBufferSize(d, st, ws.OpText, bufN)
+									w.SetExtensions(&ms)
+									ms.SetCompressed(first)
+									w.ReadFrom(&stallingSrc{left: k, end: end})
+									w.Flush()
+									ms.SetCompressed(!first)
+									w.Write([]byte("second"))
+									w.Flush()
+									frames, rest := drivers.ParseFrames(d.Bytes())
+									if len(rest) != 0 {
+										return explore.Failf("ReadFrom-wire-has-stray-bytes", "%d", len(rest))
+									}
+									// group the data frames into messages; the second message is known by its
+									// payload (the first one may be missing altogether when nothing was accepted
+									// or the writer remembers a failure)
+									type wireMsg struct {
+										idx     []int
+										payload []byte
+									}
+									var msgs []wireMsg
+									open := false
+									for i, f := range frames {
+										if refmodel.IsControl(f.H.Op) {
+											continue
+										}
+										if !open {
+											if f.H.Op == 0 {
+												return explore.Failf("ReadFrom-continuation-without-an-open-message", "frame %d", i)
+											}
+											msgs = append(msgs, wireMsg{})
+										} else if f.H.Op != 0 {
+											return explore.Failf("ReadFrom-open-message-continued-by-a-non-continuation-frame", "frame %d of %d: op=%x rsv=%d fin=%v", i, len(frames), f.H.Op, f.H.Rsv, f.H.Fin)
+										}
+										m := &msgs[len(msgs)-1]
+										m.idx = append(m.idx, i)
+										m.payload = append(m.payload, f.Payload...)
+										open = !f.H.Fin
+									}
+									for _, m := range msgs {
+										compressed := first
+										if string(m.payload) == "second" {
+											compressed = !first
+										}
+										for j, i := range m.idx {
+											want := byte(0)
+											if j == 0 && compressed {
+												want = 4
+											}
+											if frames[i].H.Rsv != want {
+												return explore.Failf("ReadFrom-RSV1-not-exactly-on-the-first-frame-of-a-compressed-message", "frame %d (frame %d of its message, compressed=%v): rsv=%d want %d", i, j, compressed, frames[i].H.Rsv, want)
+											}
+										}
+									}
+									return nil
+								})
+							}
+						}
+					}
+				}
+			}
+			t.Outcome("ok")
+		})
+
 		r.Part("E1b-bit-helpers", func(t *explore.T) {
 			for fin := 0; fin < 2; fin++ {
 				for op := 0; op < 16; op++ {
@@ -955,4 +1039,38 @@ func main() {
 			t.Outcome("identical")
 		})
 	})
+}
+
+// stallingSrc delivers left bytes (7 per Read at most) and then ends as end says: io.EOF, io.EOF
+// together with the last bytes, an error, or reads without bytes and without error for ever.
+type stallingSrc struct {
+	left int
+	end  string
+}
+
+func (s *stallingSrc) Read(p []byte) (int, error) {
+	if s.left == 0 {
+		switch s.end {
+		case "stall":
+			return 0, nil
+		case "error":
+			return 0, env.ErrInjected
+		}
+		return 0, io.EOF
+	}
+	n := 7
+	if n > s.left {
+		n = s.left
+	}
+	if n > len(p) {
+		n = len(p)
+	}
+	for i := 0; i < n; i++ {
+		p[i] = 'a' + byte((s.left-i)%26)
+	}
+	s.left -= n
+	if s.left == 0 && s.end == "EOF-with-the-last-bytes" {
+		return n, io.EOF
+	}
+	return n, nil
 }
